@@ -58,6 +58,11 @@ pub struct StringHashSet { _p: u8 }
 #[verifier::external_body]
 pub fn vx_format_err(e: &serde_json::Error) -> (r: String) { unimplemented!() }
 
+// the wire shape of the generated types is serde_derive's default for the declared field names: no `#[serde(..)]` attribute (rename, default, skip_serializing_if ..)
+// alters which members are written or required.  ASSUMED input of this unit, guarded: a generator that starts emitting such attributes makes the check UNDECIDED
+// (and the replay decides).
+//@assume_text file=%(GEN)s count=0
+serde\\s*\\(
 //@itemx file=%(GEN)s kind=struct name=Test07_Args_struct
 //@enditem
 ''' % dict(GEN=GEN)
@@ -107,6 +112,11 @@ out += ''' else {
     }
 }
 
+// the methods of the interface definition that take parameters
+pub open spec fn takes_parameters(m: Seq<char>) -> bool {
+%(takes)s
+}
+
 impl Interface for VarlinkInterfaceProxy {
     open spec fn name(&self) -> Seq<char> { "%(iface)s"@ }
     uninterp spec fn description(&self) -> Seq<char>;
@@ -151,11 +161,13 @@ vxk if vx_str_eq(vxk, \\1) =>
         let ghost mut vx_ip_attempts: int = 0;
 //@after * ^\\s*let _ = call\\.reply_invalid_parameter\\(es\\.clone\\(\\)\\);
                             proof { vx_ip_attempts = vx_ip_attempts + 1; }
+//@before * ^\\s*call\\.reply_invalid_parameter\\(vx_to_string\\("parameters"\\)\\)
+                    assert(takes_parameters(cow_str(&req.method))); // [C08.dispatch] "parameters missing" is only ever the answer to a method that takes parameters
 //@before * ^\\s*return Err\\(context!\\(self::ErrorKind::SerdeJsonDe\\(es\\)\\)\\);
                             assert(vx_ip_attempts == 1); // [C08.dispatch] ill-typed parameters: InvalidParameter is sent before the error return
 //@endfn
 }
-''' % dict(GEN=GEN, iface=iface, iface_re=iface.replace(".", "\\."))
+''' % dict(GEN=GEN, iface=iface, iface_re=iface.replace(".", "\\."), takes="    " + "\n        || ".join('m == "%s.%s"@' % (iface, cm) for fn, cm, params in methods if params))
 
 # ---- client stubs ----
 out += '''
